@@ -734,3 +734,22 @@ func inLoop(b *ssa.BasicBlock) bool {
 	}
 	return false
 }
+
+// retResult returns the i-th returned value, looking through the defer spill ("*t0 = v; rundefers; t = *t0; return t").
+func retResult(r *ssa.Return, i int) ssa.Value {
+	if i >= len(r.Results) {
+		return nil
+	}
+	v := r.Results[i]
+	if u, ok := v.(*ssa.UnOp); ok && u.Op == token.MUL {
+		if al, ok := u.X.(*ssa.Alloc); ok {
+			b := r.Block()
+			for k := len(b.Instrs) - 1; k >= 0; k-- {
+				if st, ok := b.Instrs[k].(*ssa.Store); ok && st.Addr == ssa.Value(al) {
+					return st.Val
+				}
+			}
+		}
+	}
+	return v
+}
